@@ -373,6 +373,7 @@ func concHarness(r concRole) *vrt.Harness {
 		steps := 0
 		used := make([]bool, r.peers) // peer i has been used before (symmetry breaking)
 		pieceUsed := map[int]bool{}
+		closes, closesBusy := 0, 0 // connections closed / closed with an operation of that peer in flight
 		check := func(after string) {
 			g.mu.Lock()
 			if g.lastOK.After(lastActivity) {
@@ -493,6 +494,28 @@ func concHarness(r concRole) *vrt.Harness {
 					}
 				}
 			}
+			// the connection of a peer closes, whether or not an operation of that
+			// peer is in flight: the conn's receiver channel is closed, the peer's feed
+			// goroutine ends once its current message is dispatched, removePeer deletes
+			// the peer entry, peerRemovedEvent is applied. A payload still queued in
+			// the closed conn is dropped unsent (not a served piece); a storage write
+			// in flight still completes. Same symmetry rule as for operations.
+			for p := 0; p < r.peers; p++ {
+				if fms[p].isClosed() || (p > 0 && !used[p-1]) {
+					continue
+				}
+				p := p
+				a = append(a, e1q.Action{Label: fmt.Sprintf("peer %c's connection closes (peer removed from the dispatcher)", 'A'+p), Run: func() {
+					used[p] = true
+					closes++
+					if g.busy(p) {
+						closesBusy++
+					}
+					fms[p].Close()
+					c.Drain()
+					check("conn close")
+				}})
+			}
 			a = append(a, e1q.Action{Label: "advance 6min", Run: func() { e1q.Sleep(advance); c.Drain(); check("advance") }})
 			a = append(a, e1q.Action{Label: "tick", Run: func() {
 				go v.SendPreemptionTick()
@@ -507,6 +530,13 @@ func concHarness(r concRole) *vrt.Harness {
 		// teardown: let every suspended operation finish, then stop
 		g.releaseAll(c)
 		c.Drain()
+		peersLeft := -1
+		if present {
+			peersLeft = len(disp.RemoteBitfields())
+			if want := r.peers - closes; peersLeft != want {
+				vio = append(vio, fmt.Sprintf("HARNESS: %d peers in the dispatcher, %d connections open", peersLeft, want))
+			}
+		}
 		go v.SendShutdown()
 		c.Drain()
 		for _, fm := range fms {
@@ -522,7 +552,7 @@ func concHarness(r concRole) *vrt.Harness {
 			}
 		}
 		g.mu.Lock()
-		obs := fmt.Sprintf("%s present=%v dl=%v/%v steps=%d acc=%d rej=%d ovl=%d rejafter=%d", strings.Join(c.Trace, ","), present, dlReturned, dlErr, steps, g.accepted, g.rejected, g.overlap, g.rejAfter)
+		obs := fmt.Sprintf("%s present=%v dl=%v/%v steps=%d acc=%d rej=%d ovl=%d closes=%d/%d peersleft=%d rejafter=%d", strings.Join(c.Trace, ","), present, dlReturned, dlErr, steps, g.accepted, g.rejected, g.overlap, closes, closesBusy, peersLeft, g.rejAfter)
 		g.mu.Unlock()
 		if len(obs) > 900 {
 			obs = obs[len(obs)-900:]
